@@ -537,6 +537,11 @@ RecvReest(q) ==
      ELSE UNCHANGED released
   /\ UNCHANGED <<Lidx, Lhtlc, Ridx, Rhtlc, Lmod, Rmod, LC, nadds, ndisc, nfees, opener, lwrMem>>
 
+\* C06: a revoke_and_ack whose secret is NOT the next one of the peer's chain - a corrupted one, or the negation of
+\* the right scalar (same x coordinate of the commitment point) - is refused and leaves everything as it is, in
+\* memory and on disk; the genuine message stays first in the queue.
+RecvBadRev(q) == CanRecv(q) /\ HeadMsg(q).k = "rev" /\ UNCHANGED vars
+
 -----------------------------------------------------------------------------
 Next ==
   \/ \E p \in Party, a \in Amts : Add(p, a)
@@ -547,6 +552,7 @@ Next ==
   \/ \E p \in Party : SendReest(p) \/ RecvReest(p)
   \/ \E p \in Party, r \in Rates : UpdateFee(p, r)
   \/ \E p \in Party : RecvFee(p)
+  \/ \E p \in Party : RecvBadRev(p)
 
 Spec == Init /\ [][Next]_vars
 
